@@ -30,7 +30,8 @@ CHECKS = {
              "all segmentations at the cut points of 14 stream shapes (Gemini/Titan, boundary lengths 1022..1025, trailing "
              "bytes, late content), replayed transition by transition on the real protocol; random cut sets beyond the model "
              "validated by TLC.",
-        note="Trusted: as C01. Ciphertext-level segmentation of the PyOpenSSL pump is bound by the TlsPump checks (C06)."),
+        note="Trusted: as C01. The ciphertext level (TCP reads cutting TLS records, application data coalesced with the end of "
+             "the handshake) is decided by the TlsPump replay, run in the same check with PlainInOrder / PlainComplete."),
     "C15": dict(
         engine="ServerConn", design="8 C15, 5.1",
         text="TimerWhileWaiting (invariant), TimeoutAnswers and TimeoutHarmless (action properties) model-checked with the timer "
@@ -127,6 +128,17 @@ CHECKS = {
              "query / port / trailing slash) with max_redirects 0..6; the pin check of every hop under rotations and across calls "
              "is decided by the Tofu history replay run with C16's formulas.",
         note="Trusted: TLC; scripted peers; URLs are opaque strings in the model."),
+    "C06": dict(
+        engine="TlsPump", design="8 C06, 5.2, Appendix H",
+        text="TLC checks PrefixAlways and CompleteAtClose on TlsPump (the hand-written PyOpenSSL layer) for response bodies of "
+             "0, 1, 2^14-1, 2^14, 2^14+1, 40000 and 10^6 bytes under every grouping of the client's ciphertext items into TCP "
+             "reads; every transition is executed on the real TLSServerProtocol + OpenSSL engine + GeminiServerProtocol, driven in "
+             "memory by a stdlib SSLObject client, and the decrypted stream is compared byte for byte with header + body; random "
+             "byte-level ciphertext cuts with bodies up to 300 kB; thorough tier: live servers on both backends (stdlib ssl and "
+             "PyOpenSSL) started by the real start_server, bodies sampled densely around 2^14 / 2^16 up to several MB, str and "
+             "bytes bodies, static files, slow and bursty readers, byte-identical streams on both backends.",
+        note="Trusted: TLC; the stdlib ssl client as TLS peer; byte comparison is the driver's oracle (the model knows lengths and "
+             "order, not byte values)."),
 }
 
 ORDER = ["C01", "C02", "C03", "C04", "C05", "C06", "C07", "C08", "C09", "C10", "C11", "C12", "C13", "C14", "C15",
